@@ -182,3 +182,140 @@ def lookup_table(translation):
     if args and isinstance(args[0], dict):
         return args[0]
     return None
+
+
+# ------------------------------------------------------------------------------------------------ bounded priority matcher (captures)
+
+
+class BoundedMatcher:
+    """Executes the parse tree of a compiled pattern over K symbolic characters at CONCRETE positions and yields the ways the
+    pattern can match in Python's backtracking priority order (greedy: longest first, lazy: shortest first, alternations left to
+    right) as (condition, end position, {group: (start, end)}).  re.fullmatch picks the first alternative whose condition holds and
+    whose end equals the (symbolic) length n.  Strings longer than K are outside the claim."""
+
+    def __init__(self, pattern, K, bits=21, prefix="c"):
+        self.pattern, self.K, self.bits = pattern, K, bits
+        self.c = [z3.BitVec(f"{prefix}{i}", bits) for i in range(K)]
+        self.n = z3.Int(prefix + "_len")
+        self.names = {v: k for k, v in pattern.groupindex.items()}
+        flags = pattern.flags
+        if flags & (re.IGNORECASE | re.MULTILINE | re.VERBOSE & 0):
+            raise Unsupported("flags")
+        self.dotall = bool(flags & re.DOTALL)
+        self.tree = list(sp.parse(pattern.pattern, flags))
+
+    def lit(self, ch):
+        return z3.BitVecVal(ch, self.bits)
+
+    def cls(self, items, x):
+        negate = False
+        conds = []
+        for op, av in items:
+            if op is sc.NEGATE:
+                negate = True
+            elif op is sc.LITERAL:
+                conds.append(x == self.lit(av))
+            elif op is sc.RANGE:
+                conds.append(z3.And(z3.UGE(x, self.lit(av[0])), z3.ULE(x, self.lit(av[1]))))
+            elif op is sc.CATEGORY and av is sc.CATEGORY_DIGIT:
+                conds.append(z3.And(z3.UGE(x, self.lit(48)), z3.ULE(x, self.lit(57))))  # ASCII digits only (stated)
+            else:
+                raise Unsupported(f"class item {op} {av}")
+        r = z3.Or(*conds) if conds else z3.BoolVal(False)
+        return z3.Not(r) if negate else r
+
+    def one(self, op, av, pos):
+        """condition for a single-character item at concrete position pos (the position must exist: pos < n)"""
+        if pos >= self.K:
+            return None
+        x = self.c[pos]
+        if op is sc.LITERAL:
+            cond = x == self.lit(av)
+        elif op is sc.NOT_LITERAL:
+            cond = x != self.lit(av)
+        elif op is sc.ANY:
+            cond = z3.BoolVal(True) if self.dotall else x != self.lit(10)
+        elif op is sc.IN:
+            cond = self.cls(av, x)
+        else:
+            return False
+        return z3.And(self.n > pos, cond)
+
+    def seq(self, items, pos, caps, k):
+        """continuation passing: call k(pos, caps) for every way `items` can match from pos, in priority order; yields results of k"""
+        if not items:
+            yield from k(pos, caps)
+            return
+        (op, av), rest = items[0], items[1:]
+        if op in (sc.LITERAL, sc.NOT_LITERAL, sc.ANY, sc.IN):
+            cond = self.one(op, av, pos)
+            if cond is None:
+                return
+            for c2, end, cp in self.seq(rest, pos + 1, caps, k):
+                yield z3.And(cond, c2), end, cp
+        elif op is sc.SUBPATTERN:
+            gid, add, dele, sub = av
+            name = self.names.get(gid, gid)
+
+            def after(p2, caps2, start=pos, name=name):
+                c3 = dict(caps2)
+                c3[name] = (start, p2)
+                yield from self.seq(rest, p2, c3, k)
+
+            yield from self.seq(list(sub), pos, caps, after)
+        elif op is sc.BRANCH:
+            for alt in av[1]:
+                yield from self.seq(list(alt) + rest, pos, caps, k)
+        elif op in (sc.MAX_REPEAT, sc.MIN_REPEAT):
+            lo, hi, sub = av
+            hi = self.K if hi is sc.MAXREPEAT else min(hi, self.K)
+            sub = list(sub)
+
+            def reps(count, p, caps2):
+                """exactly `count` more repetitions then the rest"""
+                if count == 0:
+                    yield from self.seq(rest, p, caps2, k)
+                    return
+                yield from self.seq(sub, p, caps2, lambda p2, c2: reps(count - 1, p2, c2) if p2 > p else iter(()))
+
+            counts = range(lo, hi + 1)
+            if op is sc.MAX_REPEAT:
+                counts = reversed(counts)
+            for cnt in counts:
+                if pos + cnt > self.K and all(o in (sc.LITERAL, sc.NOT_LITERAL, sc.ANY, sc.IN) for o, _ in sub):
+                    continue
+                yield from reps(cnt, pos, caps)
+        elif op is sc.AT:
+            if av in (sc.AT_BEGINNING, sc.AT_BEGINNING_STRING):
+                if pos == 0:
+                    yield from self.seq(rest, pos, caps, k)
+            elif av is sc.AT_END_STRING:
+                for c2, end, cp in self.seq(rest, pos, caps, k):
+                    yield z3.And(self.n == pos, c2), end, cp
+            elif av is sc.AT_END:
+                for c2, end, cp in self.seq(rest, pos, caps, k):
+                    at_end = z3.Or(self.n == pos, z3.And(self.n == pos + 1, self.c[pos] == self.lit(10))) if pos < self.K else self.n == pos
+                    yield z3.And(at_end, c2), end, cp
+            else:
+                raise Unsupported(f"anchor {av}")
+        else:
+            raise Unsupported(f"regex op {op}")
+
+    def fullmatch(self):
+        """-> list of (condition, captures) in priority order; the match taken is the first whose condition holds"""
+        out = []
+
+        def done(pos, caps):
+            yield z3.And(self.n == pos), pos, caps
+
+        for cond, end, caps in self.seq(self.tree, 0, {}, done):
+            out.append((z3.simplify(cond), caps))
+        return out
+
+    def domain(self):
+        """characters are unicode code points; characters at and after the length are irrelevant"""
+        return [self.n >= 0, self.n <= self.K] + [z3.ULE(x, self.lit(0x10FFFF)) for x in self.c]
+
+    def model_string(self, model):
+        n = model.eval(self.n, model_completion=True).as_long()
+        return "".join(chr(model.eval(self.c[i], model_completion=True).as_long()) for i in range(n))
